@@ -1233,7 +1233,7 @@ static void do_sprint(const Op* o) {
   progress(g_opidx, "C16", "s_print");
   size_t L = strlen(c->s);
   int pos = (int)(((o->a[1] % (int64_t)(L + 1)) + (int64_t)(L + 1)) % (int64_t)(L + 1));
-  int f = (int)(((o->a[2] % 8) + 8) % 8);
+  int f = (int)(((o->a[2] % 11) + 11) % 11);
   int64_t x = o->a[3];
   char out[512]; int r = 0;
   switch (f) {
@@ -1248,6 +1248,14 @@ static void do_sprint(const Op* o) {
       int l = L[((x % 16) + 16) % 16]; char piece[300];
       for (int i = 0; i < l; i++) piece[i] = (char)('a' + (i + (int)(x & 7)) % 26); piece[l] = 0;
       snprintf(out, sizeof out, "%s", piece); r = print_to(c->obj, pos, "%s", $S(piece)); break; }
+    case 8: { /* %$ of objects other than Int: their Show instances must honour the position protocol too */
+      static var* TY[] = { &Int, &Float, &String, &Array, &KeyError, &Table, &IndexOutOfBoundsError, &Type };
+      static const char* TN[] = { "Int", "Float", "String", "Array", "KeyError", "Table", "IndexOutOfBoundsError", "Type" };
+      int k = (int)(((x % 8) + 8) % 8);
+      snprintf(out, sizeof out, "[%s]", TN[k]); r = print_to(c->obj, pos, "[%$]", *TY[k]); stat_add("str.print_show_type", 1); break; }
+    case 9: snprintf(out, sizeof out, "%f;", fltval(normv(ET_FLT, x))); r = print_to(c->obj, pos, "%$;", $F(fltval(normv(ET_FLT, x)))); break;
+    case 10: { const char* sv = strval(x); if (strpbrk(sv, "\\\"'?")) sv = "plain";
+      snprintf(out, sizeof out, "=\"%s\"", sv); r = print_to(c->obj, pos, "=%$", $S((char*)sv)); stat_add("str.print_show_string", 1); break; }
     default: { /* a wide numeric field */
       static const int W[] = { 20, 31, 32, 33, 63, 64, 65, 100 };
       int w = W[((x % 8) + 8) % 8]; char fmt[16]; snprintf(fmt, sizeof fmt, "%%%dli", w);
@@ -1744,7 +1752,7 @@ static void containers_generate(Plan* p, Rng* r) {
       else if (d < 64) plan_add(p, O_SREM, 0, fault, ca, rng_chance(r, 3, 4) ? 1 + rng_below(r, 5) : 0, x, 0, 0, 0);
       else if (d < 72) plan_add(p, O_SMEM, 0, fault, ca, m, x, 0, 0, 0);
       else if (d < 86) plan_add(p, O_RESIZE, 0, fault, ca, x, 0, 0, 0, 0);
-      else plan_add(p, O_SPRINT, 0, fault, ca, x, rng_below(r, 8), (int64_t)rng_below(r, 2000) - 1000, 0, 0);
+      else plan_add(p, O_SPRINT, 0, fault, ca, x, rng_below(r, 11), (int64_t)rng_below(r, 2000) - 1000, 0, 0);
       continue;
     }
     if (g->kind == K_TABLE || g->kind == K_TREE) {
